@@ -137,14 +137,17 @@ def chunksOf : Bytes → List Nat → List Bytes
   | data, [] => [data]
   | data, c :: cs => data.take c :: chunksOf (data.drop c) cs
 
-/-- global state: the `_prss_keys` of every party -/
-abbrev Stores := Nat → Store
+/-- global state: the `_prss_keys` of every party (a list of m stores; a plain data structure so
+that neither the interpreter nor the kernel re-evaluates earlier handshakes on every lookup) -/
+abbrev Stores := List Store
 
-def Stores.upd (g : Stores) (i : Nat) (st : Store) : Stores := fun k => if k = i then st else g k
+def Stores.get (g : Stores) (i : Nat) : Store := g.getD i []
+
+def Stores.upd (g : Stores) (i : Nat) (st : Store) : Stores := g.set i st
 
 /-- initial stores ≙ `Runtime.__init__` at every party; `tok pid k` = k-th token of party pid -/
 def initStores (m t : Nat) (noPrss : Bool) (tok : Nat → Nat → Bytes) : Stores :=
-  fun i => if noPrss then [] else genStore m t i (tok i)
+  (List.range m).map fun i => if noPrss then [] else genStore m t i (tok i)
 
 /-- handshake event: connection between client `j` and server `i` is set up, the client's message
 arrives at the server cut into chunks -/
@@ -155,9 +158,9 @@ structure Hs where
   deriving Repr, DecidableEq
 
 def stepHs (m t : Nat) (noPrss : Bool) (g : Stores) (e : Hs) : Stores :=
-  let msg := clientMsg m t e.client e.server noPrss (g e.client)
+  let msg := clientMsg m t e.client e.server noPrss (g.get e.client)
   let srv := Server.feedAll m t e.server noPrss
-    { buf := [], peer := none, store := g e.server } (chunksOf msg e.cuts)
+    { buf := [], peer := none, store := g.get e.server } (chunksOf msg e.cuts)
   g.upd e.server srv.store
 
 def runHs (m t : Nat) (noPrss : Bool) (g : Stores) : List Hs → Stores
@@ -220,6 +223,6 @@ def tokOf (toks : List (List Nat)) (p k : Nat) : Bytes := leBytes ((toks.getD p 
 used for extracted tables (rows sorted by subset, keys as little-endian numbers) -/
 def modelTable (m t : Nat) (toks : List (List Nat)) (evs : List Hs) : List (List (Subset × Nat)) :=
   let g := runHs m t false (initStores m t false (tokOf toks)) evs
-  (List.range m).map fun i => (sortStore (g i)).map fun e => (e.1, ofLe e.2)
+  (List.range m).map fun i => (sortStore (g.get i)).map fun e => (e.1, ofLe e.2)
 
 end MpycV.Comb
